@@ -53,6 +53,21 @@ def run(P, R, tier):
     pb = P.func('spatialpandas.dask', 'DaskGeoSeries.partition_bounds')
 
     _common0 = __import__('rules.common', fromlist=['x'])
+    # the extents that are recorded are the partitions' own: total_bounds of an array is computed from exactly its window of the buffers (C13's E-UNITS part,
+    # called directly: C13 depends on C06, which depends on C12)
+    from rules import C13 as _C13x
+    sub13 = type(R)('C13', 'quick')
+    try:
+        _C13x.array_extents(P, sub13)
+    except AnalysisError:
+        if not __import__('report').unlisted(sub13.obs):
+            raise
+    n13 = 0
+    for o in sub13.obs:
+        if o.rule in ('C13.a', 'C13.b', 'C13.c') and 'total_bounds' in (o.detail + (o.construct or '') + o.site):
+            n13 += 1
+            R._add('C12.a', (o.path, o.site.split('::')[-1]), None, o.status, f'[{o.rule}] the recorded extent of a partition is the extent of its own rows: ' + o.detail, construct=o.construct, nontrivial=o.nontrivial)
+    R.floor('C12.a', 'array extent obligations (C13)', n13, 6)
     _common0.class_level_mutable_state(P, R, 'C12.b', [P.cls('spatialpandas.dask.DaskGeoSeries'), P.cls('spatialpandas.dask.DaskGeoDataFrame')],
                                        'partition bounds / indexes cached by one frame are served to every other frame with a geometry column of that name, and written to their datasets')
     _common0.shared_mutable_defaults(P, R, 'C12.b', [w1, w2] + list(w2.nested.values()), 'the bounds of every geometry column are appended to one list, so each column records the interleaved bounds of all columns (and twice as many rows as partitions)')
@@ -314,11 +329,39 @@ def run(P, R, tier):
                             construct='geometry name read after set_geometry')
     R.check(okf, 'C12.f', perform, tf, 'the filter uses the bounds of the active geometry (meta.geometry.name after set_geometry)',
             'the bounds filter is not keyed by the active geometry of the result')
+    def _is_mask(s):
+        return (isinstance(s, ast.Assign) and isinstance(s.value, ast.UnaryOp) and isinstance(s.value.op, ast.Invert)) or \
+            (isinstance(s, ast.Assign) and isinstance(s.value, (ast.BinOp, ast.BoolOp)) and all(k in norm(s.value) for k in ('.x0', '.x1', '.y0', '.y1')))
+
+    def _container(stmts, prefix):
+        # the statement list that holds the mask (the block itself, or a branch nested in it) and the statements executed before that list on the way to it
+        for k_, s in enumerate(stmts):
+            if _is_mask(s):
+                return stmts, prefix
+        for k_, s in enumerate(stmts):
+            for sub_ in ([s.body, s.orelse] if isinstance(s, ast.If) else [s.body] if isinstance(s, (ast.With, ast.For)) else []):
+                r_ = _container(sub_, prefix + stmts[:k_])
+                if r_ is not None:
+                    return r_
+        return None
+    cont = _container(blk.body, [])
+    outer_prefix = []
+
+    if cont is not None and cont[0] is not blk.body:
+        # the pieces are also re-selected outside the branch that filters: every such selection must filter the bounds tables as well
+        inner_body, outer_prefix = cont
+        fd = [c for c in astq.own_calls(perform) if norm(c.func).split('.')[-1] == 'from_delayed' and c.args and isinstance(c.args[0], ast.Name)]
+        pieces = fd[0].args[0].id if fd else None
+        for st in [x for b in blk.body for x in ast.walk(b)]:
+            if isinstance(st, ast.Assign) and any(isinstance(t_, ast.Name) and t_.id == pieces for t_ in st.targets) and not any(st is y for b2 in inner_body for y in ast.walk(b2)):
+                R.bad('C12.e', perform, st, f'`{norm(st)[:80]}` re-selects the pieces that are read without filtering the stored bounds of the geometry columns with the same selection: the frame '
+                      'reports bounds rows for partitions it does not have (every extent of the dataset for an empty result)', construct='pieces re-selected without filtering the bounds')
+        blk2 = ast.If(test=blk.test, body=inner_body, orelse=[])
+        ast.copy_location(blk2, blk)
+        blk = blk2
     mask_stmt = None
     for s in blk.body:
-        if isinstance(s, ast.Assign) and isinstance(s.value, ast.UnaryOp) and isinstance(s.value.op, ast.Invert):
-            mask_stmt = s
-        elif isinstance(s, ast.Assign) and isinstance(s.value, (ast.BinOp, ast.BoolOp)) and all(k in norm(s.value) for k in ('.x0', '.x1', '.y0', '.y1')):
+        if _is_mask(s):
             mask_stmt = s
     inline_use = None
     if mask_stmt is None:
@@ -333,14 +376,16 @@ def run(P, R, tier):
         ast.fix_missing_locations(mask_stmt)
         mask_name = '__mask'
         k0 = blk.body.index(inline_use[0])
-        pre = blk.body[:k0] + [mask_stmt]
+        pre = outer_prefix + blk.body[:k0] + [mask_stmt]
         rest = blk.body[k0:]
     else:
         mask_name = mask_stmt.targets[0].id
-        pre = blk.body[:blk.body.index(mask_stmt) + 1]
+        pre = outer_prefix + blk.body[:blk.body.index(mask_stmt) + 1]
         rest = blk.body[blk.body.index(mask_stmt) + 1:]
     global _PROG
     _PROG = P
+    ntr = _common.coordinate_truthiness(P, R, 'C12.d', ['spatialpandas.io.parquet'], 'partitions that do not meet the box are read, or - with reversed corners - partitions that meet it are pruned')
+    R.floor('C12.d', 'functions that unpack the bounds= box', ntr, 1)
     _eval_filter(R, perform, pre, mask_name, tier)
 
     # C12.e: same mask everywhere
